@@ -13,6 +13,19 @@ impl WasmModuleResolver {
     }
 }
 
+impl WasmModuleResolver {
+    /// What every specifier asked for through this resolver resolved to.
+    pub fn into_resolutions(self) -> Vec<(String, Option<BffFileName>)> {
+        let mut all: Vec<(String, Option<BffFileName>)> = self
+            .resolutions_cache
+            .into_iter()
+            .map(|((_, specifier), resolved)| (specifier, resolved))
+            .collect();
+        all.sort();
+        all
+    }
+}
+
 impl FsModuleResolver for WasmModuleResolver {
     fn resolve_import(
         &mut self,
